@@ -58,7 +58,7 @@ check_matmul (Ctx& c, uint64_t idx, int cls, Rng& r)
             if (!same_bits (P[i][j], Q[i][j]))
                 c.fail (fn + ":spelling(*=)", idx, [&] { Obj o; return inputs (o).kv ("i", i).kv ("j", j).kv ("operator*", (double) P[i][j]).kv ("operator*=", (double) Q[i][j]).str (); });
         }
-    if (&ret != &Q) c.fail (fn + ":spelling(*= return)", idx, [&] { return Obj ().kv ("what", "operator*= did not return *this").str (); });
+    if (&ret != &Q) c.fail (fn + ":spelling(*=,return)", idx, [&] { return Obj ().kv ("what", "operator*= did not return *this").str (); });
     c.eval ();
     if (any) c.nontrivial (hash_arr (hash_arr (10 + N, &a[0][0], N * N), &b[0][0], N * N));
     if (!is_lattice (cls) && std::isfinite (wr))
@@ -73,7 +73,7 @@ check_matmul (Ctx& c, uint64_t idx, int cls, Rng& r)
         for (int i = 0; i < N; ++i)
             for (int j = 0; j < N; ++j)
                 if (!same_bits (S1[i][j], S2[i][j]))
-                    c.fail (fn + ":spelling(*= self)", idx, [&] { return Obj ().arr ("A(row-major)", &a[0][0], N * N).kv ("i", i).kv ("j", j).kv ("A*A", (double) S1[i][j]).kv ("A*=A", (double) S2[i][j]).str (); });
+                    c.fail (fn + ":spelling(*=,self_alias)", idx, [&] { return Obj ().arr ("A(row-major)", &a[0][0], N * N).kv ("i", i).kv ("j", j).kv ("A*A", (double) S1[i][j]).kv ("A*=A", (double) S2[i][j]).str (); });
     }
 }
 
@@ -175,7 +175,7 @@ check_plain (Ctx& c, uint64_t idx, int cls, Rng& r)
         if (!same_bits (g1[j], g2[j]))
             c.fail (fn + ":spelling(*=)", idx, [&] { Obj o; return inputs (o).kv ("j", j).kv ("operator*", (double) g1[j]).kv ("operator*=", (double) g2[j]).str (); });
     }
-    if (&ret != &g2) c.fail (fn + ":spelling(*= return)", idx, [&] { return Obj ().kv ("what", "operator*= did not return its left operand").str (); });
+    if (&ret != &g2) c.fail (fn + ":spelling(*=,return)", idx, [&] { return Obj ().kv ("what", "operator*= did not return its left operand").str (); });
     c.eval ();
     if (any) c.nontrivial (hash_arr (hash_arr (20 + N, v, N), &a[0][0], N * N));
     if (!is_lattice (cls) && std::isfinite (wr))
@@ -204,7 +204,7 @@ check_m22_multdir (Ctx& c, uint64_t idx, int cls, Rng& r)
         if (!same_bits (g1[j], g3[j]))
             c.fail (fn + ":spelling(multDirMatrix)", idx, [&] { return Obj ().kv ("class", cls_name[cls]).arr ("v", v, 2).arr ("M(row-major)", &a[0][0], 4).kv ("j", j).kv ("operator*", (double) g1[j]).kv ("multDirMatrix", (double) g3[j]).str (); });
         if (!same_bits (g1[j], g4[j]))
-            c.fail (fn + ":spelling(multDirMatrix aliased_dst)", idx, [&] { return Obj ().kv ("class", cls_name[cls]).arr ("v", v, 2).arr ("M(row-major)", &a[0][0], 4).kv ("j", j).kv ("operator*", (double) g1[j]).kv ("multDirMatrix(v,v)", (double) g4[j]).str (); });
+            c.fail (fn + ":spelling(multDirMatrix,aliased_dst)", idx, [&] { return Obj ().kv ("class", cls_name[cls]).arr ("v", v, 2).arr ("M(row-major)", &a[0][0], 4).kv ("j", j).kv ("operator*", (double) g1[j]).kv ("multDirMatrix(v,v)", (double) g4[j]).str (); });
     }
 }
 
@@ -240,9 +240,9 @@ check_homog (Ctx& c, uint64_t idx, int cls, Rng& r)
         if (!same_bits (g1[j], g3[j]))
             c.fail (fn + ":spelling(multVecMatrix)", idx, [&] { Obj o; return inputs (o).kv ("j", j).kv ("operator*", (double) g1[j]).kv ("multVecMatrix", (double) g3[j]).str (); });
         if (!same_bits (g1[j], g4[j]))
-            c.fail (fn + ":spelling(multVecMatrix aliased_dst)", idx, [&] { Obj o; return inputs (o).kv ("j", j).kv ("operator*", (double) g1[j]).kv ("multVecMatrix(v,v)", (double) g4[j]).str (); });
+            c.fail (fn + ":spelling(multVecMatrix,aliased_dst)", idx, [&] { Obj o; return inputs (o).kv ("j", j).kv ("operator*", (double) g1[j]).kv ("multVecMatrix(v,v)", (double) g4[j]).str (); });
     }
-    if (&ret != &g2) c.fail (fn + ":spelling(*= return)", idx, [&] { return Obj ().kv ("what", "operator*= did not return its left operand").str (); });
+    if (&ret != &g2) c.fail (fn + ":spelling(*=,return)", idx, [&] { return Obj ().kv ("what", "operator*= did not return its left operand").str (); });
 
     R num[N], sabs[N];
     for (int j = 0; j < N; ++j)
